@@ -12,6 +12,8 @@ package main
 //   usr <hex user> <hasTokens 0|1>                    fixture profile
 //   endcfg
 //   req <hex actor> <dirdown 0|1> <level> <op> <action> <hex target> <index> <pending 0|1> <proof 0|1>
+//   sbegin <lifetime ms> / sadv <ms> / sreq <same fields as req> / send
+//                                                     a SEQUENCE of requests on one shared admin cache (injected clock)
 //   cseq <lifetime ms> <ev>,<ev>,…                    a<ms> | c<hex user>:<T|G|F|E> | g<hex user> | p<hex user>:<0|1>
 // Output
 //   cfg/grp/usr/endcfg: ok
@@ -191,6 +193,8 @@ type c08Env struct {
 	rolePub  string
 	totpKey  string
 	nGitDirs int
+	seqMode  bool
+	seqClock *c08Clock
 }
 
 func c08List(s string) []string {
@@ -319,7 +323,9 @@ func (e *c08Env) doReq(f []string) string {
 	op, action, index, pending, proof := f[4], f[5], f[7], f[8] == "1", f[9] == "1"
 	state := e.state
 	e.directory(f[2] != "1")
-	state.isAdminCache = admincache.New(5 * time.Minute)
+	if !e.seqMode { // a sequence (sbegin … send) shares one cache, as a running daemon does
+		state.isAdminCache = admincache.New(5 * time.Minute)
+	}
 	// pending challenge / secret / session for the finish operations (set up with the directory's
 	// state irrelevant: direct storage writes)
 	var body []byte
@@ -705,6 +711,35 @@ func TestVerifC08(t *testing.T) {
 		case f[0] == "req" && len(f) == 10:
 			state.gitDB = env.dbYes
 			io.emit("%s", env.doReq(f))
+		case f[0] == "sbegin" && len(f) == 2:
+			ms, err := strconv.Atoi(f[1])
+			if err != nil {
+				io.emit("bad-op")
+				continue
+			}
+			env.seqClock = &c08Clock{now: time.Unix(1700000000, 0)}
+			cache := admincache.New(time.Duration(ms) * time.Millisecond)
+			if err := c08SetClock(cache, env.seqClock); err != nil {
+				io.emit("no-clock %s", strings.ReplaceAll(err.Error(), " ", "_"))
+				continue
+			}
+			state.isAdminCache = cache
+			env.seqMode = true
+			io.emit("ok")
+		case f[0] == "sadv" && len(f) == 2 && env.seqMode:
+			ms, err := strconv.Atoi(f[1])
+			if err != nil {
+				io.emit("bad-op")
+				continue
+			}
+			env.seqClock.now = env.seqClock.now.Add(time.Duration(ms) * time.Millisecond)
+			io.emit("ok")
+		case f[0] == "sreq" && len(f) == 10 && env.seqMode:
+			state.gitDB = env.dbYes
+			io.emit("%s", env.doReq(f))
+		case f[0] == "send" && len(f) == 1:
+			env.seqMode = false
+			io.emit("ok")
 		case f[0] == "cseq" && len(f) == 3:
 			io.emit("%s", env.doCseq(f))
 		default:
